@@ -1,3 +1,97 @@
 import Econf.Layered
+import Econf.Lemmas.LayeredLemmas
+
+/-!
+  # C20 – out-pointer discipline of the read entry points (the part of C20 a model can carry)
+
+  C20 has two halves.  *Release exactly once, nothing left, nothing read uninitialised* is a
+  statement about the C heap; the functional model has no heap, so no theorem here speaks about it –
+  it is decided by the correspondence harness (ASan/UBSan, live-byte accounting at MARK/LEAK, with a
+  failure injected at every consulted file in turn), see DESIGN.md 10.4.  *Each out-pointer is
+  afterwards NULL, left as the caller initialised it, or a valid object* is decision logic of the
+  entry points and is proved below for the layered-read model, for every file system, callback,
+  security setting and argument; the harness compares the same out-pointer states (`SLOT` lines)
+  with the model on every scenario.
+-/
+
+set_option linter.unusedSimpArgs false
+
 namespace Econf
+
+/-- `econf_readFile`: an object exactly on success, NULL on every failure -/
+theorem C20_readFile_out (ctx : RdCtx) (s : RdState) (p d c : Option Str) :
+    let r := readFile ctx s p d c
+    (r.2.1 = .success ↔ r.2.2.isSome) := by
+  intro r
+  simp only [r]
+  unfold readFile
+  cases p with
+  | none => simp
+  | some p =>
+    cases d with
+    | none => simp
+    | some d =>
+      cases c with
+      | none => simp
+      | some c =>
+        simp only
+        have hne := readFileCB_ne_success ctx s false false p d c
+        generalize readFileCB ctx s false false p d c = q at hne
+        obtain ⟨q1, q2⟩ := q
+        cases q2 with
+        | ok kf => simp
+        | error e => simp only [Option.isSome_none, Bool.false_eq_true, iff_false]; exact hne e rfl
+
+/-- `econf_readConfig`: on success a valid (merged) object; on failure NULL when the caller passed
+    NULL, and the caller's own object (with the directories filled in) when the caller passed one –
+    never a partial result -/
+theorem C20_readConfig_out (ctx : RdCtx) (s : RdState) (slot : Option KeyFile)
+    (project usr name suffix delim : Option Str) (comment : Str) :
+    let r := readConfig ctx s slot project usr name suffix delim comment
+    (r.2.1 = .success → r.2.2.isSome) ∧
+    (r.2.1 ≠ .success → r.2.2 = if slot.isNone then none else some (prepareConfig (slot.getD {}) project usr name).1) := by
+  intro r
+  simp only [r]
+  unfold readConfig
+  simp only
+  have hne := readConfigCore_ne_success ctx s (prepareConfig (slot.getD {}) project usr name).1
+    (prepareConfig (slot.getD {}) project usr name).2 suffix delim comment
+  generalize readConfigCore ctx s (prepareConfig (slot.getD {}) project usr name).1
+    (prepareConfig (slot.getD {}) project usr name).2 suffix delim comment = q at hne
+  obtain ⟨q1, q2⟩ := q
+  cases q2 with
+  | ok m => simp
+  | error e =>
+    refine ⟨fun h => absurd h (hne e rfl), fun _ => ?_⟩
+    simp only
+
+/-- a history handed to the caller is never empty -/
+theorem C20_history_out (ctx : RdCtx) (s : RdState) (dirs : List Str) (name suffix delim : Option Str)
+    (comment : Str) (join python : Bool) (confDirs : List Str) (files : List KeyFile)
+    (h : (readHistory ctx s dirs name suffix delim comment join python confDirs).2 = .ok files) : files ≠ [] := by
+  unfold readHistory at h
+  cases delim with
+  | none => simp at h
+  | some d =>
+    cases name with
+    | none => simp at h
+    | some nm =>
+      simp only at h
+      split at h
+      · cases h
+      · split at h
+        · cases h
+        · split at h
+          · cases h
+          · simp only [Except.ok.injEq] at h
+            subst h
+            rename_i hh
+            intro he; apply hh; simp [he]
+
+/-- the merge pipeline turns every non-empty history into an object -/
+theorem C20_merge_out (files : List KeyFile) (h : files ≠ []) : (mergeHistory files).isSome := by
+  cases files with
+  | nil => exact absurd rfl h
+  | cons k ks => rfl
+
 end Econf
